@@ -136,6 +136,8 @@ pub enum Obs {
 	Probe(Probe),
 	/// a chain notification is about to be given to the ChainMonitor of `node` (all taps before it are already in the stream)
 	MonitorChainCall { step: u64, node: usize, height: u32, best_block: bool },
+	/// the active chain lost its blocks above `fork_height` (the nodes have been told)
+	Reorg { step: u64, fork_height: u32, disconnected: Vec<bitcoin::BlockHash>, unconfirmed: Vec<Txid> },
 }
 
 #[derive(Clone, Debug)]
@@ -251,6 +253,12 @@ pub struct World {
 	/// conclusive events handled so far, per node (chain-delivery comparisons)
 	pub event_log: Vec<(usize, String)>,
 	pub chain_equiv: bool,
+	/// the on-chain phase reorganises the chain now and then (depth below the anti-reorg delay)
+	pub reorgs: bool,
+	/// the highest tip the chain ever had
+	pub peak_height: u32,
+	/// a share of the on-chain scenarios is shaped for the punishment of revoked states (C06)
+	pub justice_focus: bool,
 }
 
 fn lk(a: usize, b: usize) -> ((usize, usize), usize) {
@@ -267,7 +275,7 @@ impl World {
 		log.trace.store(trace && std::env::var("VERIF_TAP_TRACE").is_ok(), Ordering::Relaxed);
 		let best = BlockLocator::new(bitcoin::constants::genesis_block(bitcoin::Network::Regtest).header.block_hash(), crate::chain::BASE_HEIGHT);
 		let nodes: Vec<Node> = node_cfgs.into_iter().enumerate().map(|(i, c)| Node::new(i, c, &log, fee_now, best.clone())).collect();
-		World { rng: seed_rng, log, log_cursor: 0, nodes, chans: vec![], links: HashMap::new(), chain: Chain::new(), obs: VecDeque::new(), step: 0, claimable: vec![], payments: vec![], regs: vec![], script: vec![], trace, fee_now, next_user_id: 1, funding_txs: HashMap::new(), spendable: vec![], watch_counts: HashMap::new(), snapshot_counts: vec![], total_writes: vec![], crashes_handled: 0, writes_at_open: vec![], captured: vec![], revocations_seen: Default::default(), cp_commit_numbers: HashMap::new(), close: None, attacker_htlc_txs: vec![], onchain_done: false, miner_delay_max: 0, miner_release: HashMap::new(), miner_min_feerate: 0, fee_market_used: false, miner_exempt: Default::default(), event_log: vec![], chain_equiv: false }
+		World { rng: seed_rng, log, log_cursor: 0, nodes, chans: vec![], links: HashMap::new(), chain: Chain::new(), obs: VecDeque::new(), step: 0, claimable: vec![], payments: vec![], regs: vec![], script: vec![], trace, fee_now, next_user_id: 1, funding_txs: HashMap::new(), spendable: vec![], watch_counts: HashMap::new(), snapshot_counts: vec![], total_writes: vec![], crashes_handled: 0, writes_at_open: vec![], captured: vec![], revocations_seen: Default::default(), cp_commit_numbers: HashMap::new(), close: None, attacker_htlc_txs: vec![], onchain_done: false, miner_delay_max: 0, miner_release: HashMap::new(), miner_min_feerate: 0, fee_market_used: false, miner_exempt: Default::default(), event_log: vec![], chain_equiv: false, reorgs: false, peak_height: crate::chain::BASE_HEIGHT, justice_focus: false }
 	}
 	/// Whether the victim (the other party) has processed the revocation of this captured commitment.
 	pub fn is_revoked(&self, c: &crate::onchain::Captured) -> bool {
@@ -709,7 +717,12 @@ impl World {
 					self.obs.push_back(Obs::Relay { step: self.step, node: n, tx, verdict: TxVerdict::Valid });
 					continue;
 				}
-				let v = self.chain.relay(&tx);
+				let mut v = self.chain.relay(&tx);
+				if let TxVerdict::Invalid(why) = &v {
+					if self.chain.height() < self.peak_height {
+						v = TxVerdict::Invalid(format!("{} [tip below the highest tip seen]", why));
+					}
+				}
 				if self.trace {
 					eprintln!("  step {} RELAY node{} tx {} -> {:?}", self.step, n, txid, v);
 				}
@@ -730,6 +743,54 @@ impl World {
 		self.drain_taps();
 		self.nodes[n].mgr.best_block_updated(&b.header, b.height);
 		self.drain_taps();
+	}
+	/// Reorganise: the last `depth` blocks leave the active chain. Their transactions return to the mempool
+	/// except those in `drop` (and whatever is not valid for the next block any more); every node is told in
+	/// the transaction-oriented style it is driven with (`Confirm::transaction_unconfirmed` for what it
+	/// watches, optionally followed by the fork point as the new tip). The competing blocks are mined by
+	/// the caller afterwards.
+	pub fn reorg(&mut self, depth: u32, drop: &std::collections::HashSet<Txid>, announce_fork_tip: bool) -> Vec<Block> {
+		use lightning::chain::Confirm;
+		self.relay_broadcasts();
+		let mut gone: Vec<Block> = vec![];
+		for _ in 0..depth {
+			gone.push(self.chain.disconnect_tip());
+		}
+		let dropped = self.chain.revalidate_mempool(drop);
+		let fork = self.chain.tip().clone();
+		let hashes: Vec<bitcoin::BlockHash> = gone.iter().map(|b| b.header.block_hash()).collect();
+		let unconfirmed: Vec<Txid> = gone.iter().flat_map(|b| b.txs.iter().map(|t| t.compute_txid())).collect();
+		self.log.height.store(fork.height, Ordering::SeqCst);
+		if self.trace {
+			eprintln!("step {} REORG {} blocks disconnected, tip back at {}, {} txs unconfirmed, dropped from the mempool: {:?}", self.step, depth, fork.height, unconfirmed.len(), dropped);
+		}
+		self.drain_taps();
+		self.obs.push_back(Obs::Reorg { step: self.step, fork_height: fork.height, disconnected: hashes.clone(), unconfirmed });
+		for n in 0..self.nodes.len() {
+			let rel = Confirm::get_relevant_txids(&*self.nodes[n].mon);
+			for (txid, _, bh) in rel {
+				if bh.map(|h| hashes.contains(&h)).unwrap_or(false) {
+					self.nodes[n].mon.transaction_unconfirmed(&txid);
+				}
+			}
+			self.drain_taps();
+			let rel = Confirm::get_relevant_txids(&self.nodes[n].mgr);
+			for (txid, _, bh) in rel {
+				if bh.map(|h| hashes.contains(&h)).unwrap_or(false) {
+					self.nodes[n].mgr.transaction_unconfirmed(&txid);
+				}
+			}
+			self.drain_taps();
+			if announce_fork_tip {
+				self.nodes[n].mon.best_block_updated(&fork.header, fork.height);
+				self.drain_taps();
+				self.nodes[n].mgr.best_block_updated(&fork.header, fork.height);
+				self.drain_taps();
+			}
+			self.pump(n);
+		}
+		self.relay_broadcasts();
+		gone
 	}
 	pub fn mine(&mut self, blocks: u32) {
 		for _ in 0..blocks {
@@ -784,6 +845,7 @@ impl World {
 				})
 			};
 			self.log.height.store(b.height, Ordering::SeqCst);
+			self.peak_height = self.peak_height.max(b.height);
 			if self.trace {
 				eprintln!("step {} MINE height {} with {} txs", self.step, b.height, b.txs.len());
 			}
@@ -1162,11 +1224,39 @@ impl World {
 		}
 	}
 	/// Replay blocks to a freshly loaded node: the manager and each monitor from their own best block.
+	/// What a `Confirm` client does after a restart: whatever an object (read back from a possibly older
+	/// write) believes confirmed in a block that is not on the active chain is unconfirmed, the object is
+	/// told the highest block it shares with the active chain if its own tip is not on it, and then every
+	/// block up to the tip.
 	pub fn resync_node(&mut self, n: usize) {
+		use lightning::chain::Confirm;
 		let tip = self.chain.height();
 		let node = &self.nodes[n];
-		let mgr_h = node.mgr.current_best_block().height;
-		for h in (mgr_h + 1)..=tip {
+		let on_chain = |h: u32, hash: &bitcoin::BlockHash| h <= tip && h >= crate::chain::BASE_HEIGHT && self.chain.block_at(h).header.block_hash() == *hash;
+		let shared = |loc: &BlockLocator| -> u32 {
+			let mut h = loc.height.min(tip);
+			loop {
+				match loc.get_hash_at_height(h) {
+					Some(hash) if on_chain(h, &hash) => return h,
+					Some(_) if h > crate::chain::BASE_HEIGHT => h -= 1,
+					// (history exhausted: forks are shallower than the anti-reorg delay)
+					_ => return loc.height.min(tip).saturating_sub(6).max(crate::chain::BASE_HEIGHT),
+				}
+			}
+		};
+		for (txid, h, bh) in Confirm::get_relevant_txids(&node.mgr) {
+			if bh.map(|b| !on_chain(h, &b)).unwrap_or(false) {
+				node.mgr.transaction_unconfirmed(&txid);
+			}
+		}
+		let loc = node.mgr.current_best_block();
+		let mut from = loc.height;
+		if !on_chain(loc.height, &loc.block_hash) {
+			from = shared(&loc);
+			let b = self.chain.block_at(from);
+			node.mgr.best_block_updated(&b.header, b.height);
+		}
+		for h in (from + 1)..=tip {
 			let b = self.chain.block_at(h);
 			let txdata: Vec<(usize, &Transaction)> = b.txs.iter().enumerate().map(|(i, t)| (i + 1, t)).collect();
 			node.mgr.transactions_confirmed(&b.header, &txdata, b.height);
@@ -1174,8 +1264,19 @@ impl World {
 		}
 		for cid in node.mon.list_monitors() {
 			if let Ok(m) = node.mon.get_monitor(cid) {
-				let mh = m.current_best_block().height;
-				for h in (mh + 1)..=tip {
+				for (txid, h, bh) in m.get_relevant_txids() {
+					if bh.map(|b| !on_chain(h, &b)).unwrap_or(false) {
+						m.transaction_unconfirmed(&txid, &*node.bcast, &*node.fee, &*node.logger);
+					}
+				}
+				let loc = m.current_best_block();
+				let mut from = loc.height;
+				if !on_chain(loc.height, &loc.block_hash) {
+					from = shared(&loc);
+					let b = self.chain.block_at(from);
+					m.best_block_updated(&b.header, b.height, &*node.bcast, &*node.fee, &*node.logger);
+				}
+				for h in (from + 1)..=tip {
 					let b = self.chain.block_at(h);
 					let txdata: Vec<(usize, &Transaction)> = b.txs.iter().enumerate().map(|(i, t)| (i + 1, t)).collect();
 					m.transactions_confirmed(&b.header, &txdata, b.height, &*node.bcast, &*node.fee, &*node.logger);
